@@ -49,7 +49,107 @@ def upstream_oracle(g, seen):
     return None
 
 
+def server_part(ctx):
+    """End to end through the config-driven server: humphrey_server::server::main started from a configuration text whose
+    proxy routes point at an origin that answers with the very request head it received; the client therefore reads what the
+    upstream saw. Compared with the whole-server model (Server.serve_text -> SProxy -> Proxy.upstream_bytes) and read
+    independently here: route prefix stripped once, query kept, header fields kept in order, one more X-Forwarded-For naming
+    the origin address (last parseable entry of the incoming X-Forwarded-For, else the peer)."""
+    import ipaddress
+    rng = ctx.rng
+    n = 200 if ctx.tier == 'thorough' else 10 * ctx.scale
+    lines, meta = [], []
+    if ctx.replay:
+        if not ctx.replay['case'].get('line', '').startswith('srv '):
+            return
+        lines, meta, n = [ctx.replay['case']['line']], [None], 0
+    PRE = ['/api/', '/p', '/a/b/', '/docs', '/x/', '/ab']
+    for i in range(n):
+        pres = rng.sample(PRE, rng.randint(1, 3))
+        routes = [(pre + '*') for pre in pres] + (['/exact'] if rng.random() < 0.5 else []) + (['/*'] if rng.random() < 0.7 else [])
+        conf = '\n'.join(['server {', '  address "127.0.0.1"', '  port 8080', '  threads 8', '  log {', '    level "error"', '    console false', '  }'] +
+                         [ln for r in routes for ln in ('  route %s {' % r, '    proxy "@UPE@"', '  }')] + ['}']) + '\n'
+        reqs = []
+        for _ in range(8):
+            pre = rng.choice(pres + ['/', '/exact', '/zz'])
+            rest = rng.choice(['', 'q', '/q', 'v1/items', pre, pre.lstrip('/'), pre + pre, '/' + pre, 'a%20b', 'é'])
+            path = pre + rest
+            query = rng.choice(['', '', 'x=1', 'a=b&c=d', 'q?r'])
+            peer = '127.0.0.%d' % rng.randint(2, 60)
+            xff = rng.choice([None, None, '10.0.0.%d' % rng.randint(1, 9), '10.1.1.1, 192.168.0.%d' % rng.randint(1, 9), 'unknown, 10.2.2.2', 'unknown',
+                              '10.3.3.3, nonsense'])
+            reqs.append((peer, xff, path + ('?' + query if query else '')))
+        lines.append('srv %s - %s -' % (hx(conf), ','.join('%s:%s:%s:%s' % (hx('x'), hx(t), hx(p), hx(x) if x else '-') for p, x, t in reqs)))
+        meta.append((routes, reqs))
+    im = ctx.impl(lines)
+    ctx.evaluations += len(lines)
+    from props import srvmodel
+    srvmodel.compare(ctx, lines, im, 'proxy-server', 'proxy routes of the config-driven server')
+    def first_match(routes, path):
+        for r in routes:
+            lit = r.rstrip('*')
+            if (path.startswith(lit) if r.endswith('*') else path == r):
+                return r
+        return None
+    for line, me, b in zip(lines, meta, im):
+        ctx.count('kind:server-proxy-e2e')
+        if me is None:
+            ctx.sample({'replayed': line[:200], 'impl': b[:300]})
+            continue
+        routes, reqs = me
+        got = b.split(',')
+        if len(got) != len(reqs):
+            ctx.report({'line': line[:4000], 'kind': 'server-proxy-e2e'}, b[:300], 'one answer per request', cls='proxy-server',
+                       failing_input=b in ('PANIC', 'DIED', 'TIMEOUT'), what='the config-driven server did not answer: ' + b[:100])
+            continue
+        for (peer, xff, target), g in zip(reqs, got):
+            path, _, query = target.partition('?')
+            case = {'line': line[:4000], 'kind': 'server-proxy-e2e', 'request': target, 'peer': peer, 'xff': xff}
+            r = first_match(routes, path)
+            if r is None:
+                if not g.startswith('404'):
+                    ctx.report(case, g[:200], '404', cls='proxy-server-route', failing_input=True, what='no proxy route matches, yet not 404')
+                continue
+            if not g.startswith('200:body:'):
+                ctx.report(case, g[:200], 'the echo of the forwarded request', cls='proxy-server-answer', failing_input=True,
+                           what='a proxied request was not answered with the origin\'s response')
+                continue
+            seen = bytes.fromhex(g.split(':')[2])
+            lit = r.rstrip('*')
+            stripped = path[len(lit):] if r.endswith('*') else path[len(lit):]
+            if not stripped.startswith('/'):
+                stripped = '/' + stripped
+            want_target = stripped + ('?' + query if query else '')
+            origin = peer
+            for e in (xff or '').split(','):
+                try:
+                    origin = str(ipaddress.ip_address(e.strip()))
+                except ValueError:
+                    pass
+            head = seen.split(b'\r\n\r\n')[0].split(b'\r\n')
+            hs = [tuple(x.split(b': ', 1)) for x in head[1:]]
+            want_xff = ([xff.encode()] if xff else []) + [origin.encode()]
+            got_xff = [v for k, v in hs if k.lower() == b'x-forwarded-for']
+            others = sorted((k.lower(), v) for k, v in hs if k.lower() != b'x-forwarded-for')
+            if head[0] != ('GET %s HTTP/1.1' % want_target).encode():
+                ctx.report(case, head[0][:200].decode('utf-8', 'replace'), 'GET %s HTTP/1.1' % want_target, cls='proxy-server-target', failing_input=True,
+                           what='the upstream was asked for another target than the request\'s with the route prefix stripped')
+            elif got_xff != want_xff:
+                ctx.report(case, repr(got_xff), repr(want_xff), cls='proxy-server-xff', failing_input=True,
+                           what='X-Forwarded-For seen by the upstream is not the incoming one plus the origin address')
+            elif others != [(b'connection', b'close'), (b'host', b'x')]:
+                ctx.report(case, repr(others), 'Host and Connection as sent', cls='proxy-server-headers', failing_input=True,
+                           what='header fields of the request were changed on the way to the upstream')
+            else:
+                ctx.count('forwarded request read independently (server)')
+                if xff or stripped != path:
+                    ctx.mark_nontrivial(target)
+
+
 def run(ctx):
+    server_part(ctx)
+    if ctx.replay and ctx.replay['case'].get('line', '').startswith('srv '):
+        return
     rng = ctx.rng
     thorough = ctx.tier == 'thorough'
     lines, meta = [], []
